@@ -204,13 +204,15 @@ CHECKS = {
         "tests": [{"name": "TestC05", "quick": 8000, "thorough": 500000}],
     },
     "C08": {
-        "rule": "a table content (0-12 rows with colliding values: near copies of earlier rows) and a list of 0-4 well-typed conditions (all eight "
+        "rule": "a table content (0-12 rows with colliding values: near copies of earlier rows) and a sequence of 1-4 queries (each a list of 0-4 well-typed conditions, or a sub-list of an earlier query) evaluated one after the other on the same caches and databases, after which every cache index must still agree with a scan (all eight "
                 "functions, scalar/enum/optional/set/map columns, _uuid, empty sets/maps, repeated columns, map includes on index keys) are "
                 "evaluated under 3-5 index configurations over the same columns (none; schema single/multi; client single/multi incl. "
                 "optional and map-key; mixtures). For every configuration RowCache.RowsByCondition, Database.List(conds...) and a select "
                 "operation must return exactly the uuids an independent evaluator of RFC 7047 5.1 returns (refdb.EvalCond), hence the "
-                "same answer under every configuration. TestC08API (L2) checks WhereAll/WhereAny/WhereCache/Where(model).List against "
-                "predictions and that the generated Delete/Update affect exactly the listed rows. Non-trivial = >=2 conditions, >=1 index "
+                "same answer under every configuration. TestC08API (server + connected client monitoring everything, one index configuration per case) checks "
+                "WhereAll/WhereAny/WhereCache/Where(model)/Where(models...).List against predictions (all / any / predicate / first index, in the order uuid, "
+                "schema indexes, client indexes, that finds a row) and that executing the generated Delete/Update/Mutate operations changes exactly the listed rows "
+                "(database compared in full, affected-row counts summed). Non-trivial = >=2 conditions, >=1 index "
                 "configured, answer non-empty and a strict subset of the table; distinct = hash of (functions x column kinds, configurations).",
         "assumptions": COMMON_ASSUMPTIONS + [
             "includes/excludes on optional columns are documented as unsupported: an error is accepted there, a wrong answer is not",
@@ -219,7 +221,8 @@ CHECKS = {
         "level_text": "exploration: generated contents x condition lists x index configurations with an independent condition evaluator and the metamorphic 'indexes do not matter' relation",
         "level_note": "trusts refdb.EvalCond (30 lines, written from RFC 7047 5.1)",
         "technique": "property-based testing (rapid): differential against an independent evaluator + metamorphic relation across index configurations",
-        "tests": [{"name": "TestC08", "quick": 3000, "thorough": 160000}],
+        "tests": [{"name": "TestC08", "quick": 3000, "thorough": 160000},
+                  {"name": "TestC08API", "quick": 2400, "thorough": 60000}],
     },
     "C09": {
         "rule": "a generated schema over the whole type space (every atomic type as key and value, 0..1 / 1..1 / 0..n / 1..n / bounded, enums of every "
@@ -280,7 +283,9 @@ CHECKS = {
                 "the caller's copy is mutated (overwrite scalar, append/overwrite/truncate slice, insert/overwrite/delete map entry, write "
                 "through/nil a pointer) and a model read through one of 6-7 read paths (Row, Rows, RowByModel by uuid and by index, RowsByModels, "
                 "RowsByCondition with and without conditions) is mutated too: every path must still return the stored value. Event-handler "
-                "arguments are covered by C14, client Get/List by the L2 checks. Non-trivial = a mutation through a non-empty slice, map or "
+                "arguments are covered by C14. TestC13API does the same through a connected client (server, MonitorAll): List into []T and []*T, "
+                "WhereCache/Where(models)/WhereAny(...).List into both, Get, Cache().Table().Row/Rows; 1-3 mutations of returned models, then every path "
+                "must return the rows the database holds. Non-trivial = a mutation through a non-empty slice, map or "
                 "pointer; distinct = hash of (family, read path, write path, mutation kind).",
         "assumptions": COMMON_ASSUMPTIONS + [
             "RowsShallow is the documented read-only exception",
@@ -289,7 +294,8 @@ CHECKS = {
         "level_text": "exploration: generated models x read paths x caller mutations, snapshot-equality oracle and Clone/Equal algebraic laws",
         "level_note": "memory sharing is detected through reflect pointers and by observing mutations; generated deep-copy code for slices/maps is checked in C20",
         "technique": "property-based testing (rapid): aliasing probes (mutate-and-reread) + algebraic laws",
-        "tests": [{"name": "TestC13", "quick": 12000, "thorough": 800000}],
+        "tests": [{"name": "TestC13", "quick": 12000, "thorough": 800000},
+                  {"name": "TestC13API", "quick": 1600, "thorough": 60000}],
     },
     "C14": {
         "rule": "cache level, built with -race: 1-3 handlers are registered, the dispatcher runs, and a history of 1-14 notifications computed by "
